@@ -57,6 +57,26 @@ CHECKS = {
             "as builder events and the returned map / target definition against ConvertPreserves.",
             "same as C01",
             TRACE_TECH % ("Builder.tla", "BuilderTrace.tla"), "7 C20"),
+    "C08": ("vec", "model_checking",
+            "TLC explores every vector length <= N and every converter behaviour (converted / abandoned / error / panic, input dropped "
+            "early or late, previous output touched, output built then discarded) and checks ThreeRegions, CallsInOrderExactlyOnce, "
+            "PrevIsLastOutput, ResultIsOutputsInOrder, AllocationReused; every TLC behaviour and seeded random scenarios (n <= 64, seven "
+            "element-type pairs) run on the real function in debug and release builds with hooks and a hook-free release build; TLC validates "
+            "each event stream (converter calls, drops, allocator, loop indices from the hooks, result).",
+            "bounded N; element drops observed through instrumented types, the buffer through a logging global allocator",
+            TRACE_TECH % ("VecConvert.tla", "VecTrace.tla"), "7 C08"),
+    "C09": ("vec", "model_checking",
+            "Same model: failure of either kind at every position combined with every prefix pattern; NeverDroppedTwice, AllDroppedAtEnd, "
+            "BufferFreedAtEnd, NoCallAfterFailure, SamePayload; on the real code the error value / panic payload carry an identity and the "
+            "release of the buffer must precede the failure reaching the caller.",
+            "same as C08; crash points inside element destructors are out of scope",
+            TRACE_TECH % ("VecConvert.tla", "VecTrace.tla"), "7 C09"),
+    "C10": ("vec", "model_checking",
+            "Refuse is the first action of the model (RefusedBeforeAnyRead); on the real code the full matrix of mismatching pairs "
+            "(size, alignment, both, zero-size vs not) x lengths 0..4 and 9 must panic with the assertion, call the converter never and "
+            "drop each input exactly once.",
+            "the matrix is finite and enumerated completely; x86_64 only",
+            TRACE_TECH % ("VecConvert.tla", "VecTrace.tla"), "7 C10"),
 }
 
 PENDING_REASON = "check not built yet (framework under construction); see DESIGN.md section 7"
@@ -103,6 +123,9 @@ def main():
              "serves_properties": ["C01", "C02", "C03", "C12", "C13", "C18", "C19", "C20"],
              "kind_free_text": "TLC model checking of spec/Builder.tla + TLC trace validation (spec/BuilderTrace.tla) of "
                                "harness/builder_driver executions"},
+            {"name": "vec", "path": "tools/vec_pipe.py", "serves_properties": ["C08", "C09", "C10"],
+             "kind_free_text": "TLC model checking of spec/VecConvert.tla + TLC trace validation (spec/VecTrace.tla) of "
+                               "harness/vec_driver executions (debug/release with hooks, release without)"},
         ],
         "checks": checks,
         "notes": "All checks share cached pipeline stages keyed by the content hash of /repo and /verif sources, tier and seed "
